@@ -516,6 +516,8 @@ class Translator:
             if isinstance(ty, tuple) and ty[0] == "result" and self.compatible(ty, RES(self.spec.ret)):
                 return txt, ty          # a failing computation of the right type (propagated failure)
             r = self.spec.ret
+            if isinstance(ty, tuple) and ty[0] == "option" and not (isinstance(r, tuple) and r[0] == "option") and ty[1] is not None and self.compatible(ty[1], r):
+                return txt, RES(ty[1])   # `l[0]` (nth_error) returned from a function that does not return an Optional: the None case is the IndexError
             if isinstance(r, tuple) and r[0] == "option" and not (isinstance(ty, tuple) and ty[0] == "option") and self.compatible(ty, r[1]):
                 return f"(Some (Some {txt}))", RES(r)        # a function returning `None | T`: a T result is Some
             if ty == OPT(None) and isinstance(r, tuple) and r[0] == "option": ty = r
